@@ -100,10 +100,15 @@ pub(crate) fn validate_subscription(
     }
 
     let mut field_names = vec![];
+    // Fields with the same response key are merged into a single root field
+    let mut response_keys = vec![];
 
     let walked = walk_selections(document, &operation.selection_set, |selection| {
         if let executable::Selection::Field(field) = selection {
             field_names.push(field.name.clone());
+            if !response_keys.contains(field.response_key()) {
+                response_keys.push(field.response_key().clone());
+            }
             if matches!(field.name.as_str(), "__type" | "__schema" | "__typename") {
                 diagnostics.push(
                     field.location(),
@@ -135,7 +140,7 @@ pub(crate) fn validate_subscription(
         return;
     }
 
-    if field_names.len() > 1 {
+    if response_keys.len() > 1 {
         diagnostics.push(
             operation.location(),
             executable::BuildError::SubscriptionUsesMultipleFields {
